@@ -235,8 +235,29 @@ func (in *Inst) Body() {
 			vrt.Join()
 			in.Bus.Wait()
 		}
+		// closing sequence: whatever the registry went through, removal must still work
+		// afterwards (Clear of every type empties it, nothing is delivered any more) and so
+		// must a fresh subscription
+		in.Rec.Add("closing", 0, 0, "")
+		for ty := range Types {
+			Types[ty].Clear(in.Bus)
+			in.Rec.Add("ccount", ty, Types[ty].Count(in.Bus), "")
+			Types[ty].Pub(in.Bus, closeBase+2*ty)
+			vrt.Join()
+			in.Bus.Wait()
+		}
+		r := 0
+		if err := Types[0].Sub(in.Bus, 0, evt.SubOpts{}); err != nil {
+			r = 1
+		}
+		in.Rec.Add("csub", r, Types[0].Count(in.Bus), "")
+		Types[0].Pub(in.Bus, closeBase+100)
+		vrt.Join()
+		in.Bus.Wait()
 	}
 }
+
+const closeBase = 2000
 
 func (in *Inst) Trace() string { return in.Rec.String() }
 
@@ -292,6 +313,30 @@ func (in *Inst) Check(res *vrt.Result) []vrt.Violation {
 	}
 	bad := func(kind, sig, detail string) {
 		vs = append(vs, vrt.Violation{Kind: kind, Sig: name + " " + sig, Detail: detail + "\nprogram: " + in.P.String() + "\nlog: " + in.Rec.String()})
+	}
+	// the closing sequence (sequential, after quiescence)
+	closing := false
+	resub := 0
+	for _, e := range evs {
+		switch {
+		case e.K == "closing":
+			closing = true
+		case !closing:
+		case e.K == "ccount" && e.B != 0:
+			bad("closing", "after quiescence Clear of a type left handlers registered (HandlerCount != 0)", fmt.Sprintf("type t%d count %d", e.A, e.B))
+		case e.K == "h" && e.B >= closeBase && e.B < closeBase+100:
+			bad("closing", "after quiescence a handler received an event published after Clear of its type", fmt.Sprintf("handler %d event %d", e.A, e.B))
+		case e.K == "csub" && (e.A != 0 || e.B != 1):
+			bad("closing", "after quiescence and Clear of every type a fresh Subscribe did not give exactly one registered handler", fmt.Sprintf("err=%d count=%d", e.A, e.B))
+		case e.K == "h" && e.B == closeBase+100:
+			resub++
+			if e.A != 0 {
+				bad("closing", "after quiescence a handler other than the freshly subscribed one received an event", fmt.Sprintf("handler %d", e.A))
+			}
+		}
+	}
+	if closing && resub != 1 {
+		bad("closing", fmt.Sprintf("after quiescence and Clear of every type a freshly subscribed handler received the next event %d times", resub), "")
 	}
 	// deliveries before quiescence: (tySlot, evid) -> count
 	deliv := map[[2]int]int{}
@@ -520,7 +565,7 @@ func (in *Inst) linearize(evs []h.Ev, call, ret []int, quiesced int, regs []reg)
 	// expected final state observations
 	probe := map[int][]int{} // ty -> slots delivered in the probe, in order
 	curTy := -1
-	for i := quiesced; i < len(evs); i++ {
+	for i := quiesced; i < len(evs) && evs[i].K != "closing"; i++ {
 		switch evs[i].K {
 		case "probe":
 			curTy = evs[i].A
